@@ -290,6 +290,7 @@ PO_INV = [("order_wf", "order_wf(order)"),
           ("inv_lm_coll_nonneg", "lm_coll_nonneg(om_lm(self))"), ("inv_lm_loans_wf", "lm_loans_wf(om_lm(self))"),
           ("inv_orders_wf", "om_orders_wf(self)"), ("inv_holds_dom", "om_holds_dom(self)"), ("inv_holds_nonneg", "om_holds_nonneg(self)"),
           ("inv_holds_sum", "om_holds_sum(self)")]
+OM_INVS = [x for x in PO_INV if x[0].startswith("inv_")]
 contract(OM + "_process_order", props=P + ["C04", "C11"],
          types={"liquidity_strategy": "LiquidityStrategy"},
          requires=PO_REQ,
@@ -337,7 +338,7 @@ contract(OM + "add_order", props=P + ["C10"],
                            "and not (order._id in self._orders._items) and not (order._id in self._holds_by_order)"),
              ("known", "implies(order._auto_borrow, known_order(order) and known_fees(self._ctx.fee_strategy))"),
              ("clock", "implies(order._auto_borrow, clock_ok(om_lm(self)))")],
-         ensures=PO_INV[4:] + [
+         ensures=OM_INVS + [
              ("registered", "in_orders(self, order) and st_open(order)"),
              # C06: the order reserves what it may spend; without borrowing it is accepted exactly when the available funds cover it
              ("hold", "forall(lambda s=Str: at(om_acc(self).holds, s) == old(at(om_acc(self).holds, s)) + "
@@ -361,7 +362,7 @@ contract(OM + "add_order", props=P + ["C10"],
 contract(OM + "cancel_order", props=P, types={"order_id": "Id"},
          axioms=[("bound", "ax_hold_bound(self, order_id)"), ("step", "ax_hold_step(self, order_id)")],
          requires=OM_REQ + [("clock", "clock_ok(om_lm(self)) and forall(lambda k=Id: implies(k in om_lm(self)._loans._items, now_of(om_lm(self)) >= om_lm(self)._loans._items[k]._created_at))")],
-         ensures=PO_INV[4:] + [
+         ensures=OM_INVS + [
              ("canceled", "(order_id in self._orders._items) and old(st_open(self._orders._items[order_id])) "
                           "and self._orders._items[order_id]._state == OrderState.CANCELED"),
              ("released", "not (order_id in self._holds_by_order)"),
@@ -381,7 +382,7 @@ contract("opaque:liquidity_strategy_factory", trusted=True, returns="LiquiditySt
 
 specfun("closed_stay", ["m"], "forall(lambda k=Id: implies(old(k in m._orders._items) and not old(st_open(m._orders._items[k])), "
                               "unchanged(m._orders._items[k]) and content_unchanged(m._orders._items[k]._balance_updates, m._orders._items[k]._fees)))")
-BAR_INV = PO_INV[4:] + [
+BAR_INV = OM_INVS + [
     ("collateral_free", "om_lm(self)._lending_strategy.no_collateral"),
     ("ledger", "forall(lambda s=Str: total_of(om_acc(self), s) - old(total_of(om_acc(self), s)) == GHOST.ledger[s] - old(GHOST.ledger[s]))"),
     ("registry_stable", "forall(lambda k=Id: ((k in self._orders._items) == old(k in self._orders._items)) "
